@@ -2865,6 +2865,30 @@ proof fn lemma_pend_shift(dag: &GraphType, jobs: Seq<NodeInfo>, q1: Seq<Signal>,
     }
 }
 
+/// isolation speaks about states and dependencies only: storing an output changes nothing
+spec fn same_states(a: Seq<NodeInfo>, b: Seq<NodeInfo>) -> bool {
+    a.len() == b.len() && forall|i: int| 0 <= i < a.len() ==> (#[trigger] b[i]).state == a[i].state
+}
+
+proof fn lemma_iso_same_states(dag: &GraphType, a: Seq<NodeInfo>, b: Seq<NodeInfo>)
+    requires iso_ok(dag, a), same_states(a, b), edges_in_range(dag, a.len()),
+    ensures iso_ok(dag, b),
+{
+    reveal(pend_ok);
+    reveal(needs_notice);
+    assert forall|u: usize, d: usize| #![trigger dag.has_edge(u, d)] dag.has_edge(u, d) && fail_cause(b[u as int].state) && needs_notice(dag, b, d)
+        implies has_upfail_from(Seq::<Signal>::empty(), 0, d) || has_upfail_signal(Seq::<Signal>::empty(), d) by {
+        assert(b[u as int].state == a[u as int].state);
+        assert(b[d as int].state == a[d as int].state);
+        assert forall|i: int| 0 <= i < a.len() implies same_kind(b[i].state, (#[trigger] a[i]).state) by { assert(b[i].state == a[i].state); }
+        assert forall|x: usize, y: usize| #![trigger dag.has_edge(x, y)] dag.has_edge(x, y) implies dag.has_edge(x, y) by {}
+        if a[d as int].state is Ephemeral && all_eph_down(dag, a, d) {
+            lemma_all_eph_down_sub(dag, dag, a, b, d);
+        }
+        assert(needs_notice(dag, a, d));
+    }
+}
+
 proof fn lemma_iso_empty()
     ensures forall|jobs: Seq<NodeInfo>, dag: &GraphType| jobs.len() == 0 && edges_in_range(dag, 0) ==> #[trigger] iso_ok(dag, jobs),
 {
